@@ -525,20 +525,6 @@ func runRnd(c RndCase) *vt.Outcome {
 				return o
 			}
 		}
-		// rows on which the predicate is a non-missing error are deleted too: C14's known finding, not a pruning matter
-		pvals, qerr := qh.Run(e.zctx, all, "yield "+c.Delete)
-		if qerr == nil && len(pvals) == len(all) {
-			var errRows []zed.Value
-			for n, pv := range pvals {
-				if pv.IsError() && !pv.IsMissing() {
-					errRows = append(errRows, all[n])
-				}
-			}
-			if len(errRows) > 0 && oracle.SameMultiset(subtract(want, errRows), got) == "" {
-				o.Label("deletewhere-error-rows(C14 finding)")
-				return o
-			}
-		}
 		o.Fail = fail("C16/deletewhere-differs", "after delete where %q the pool is not (all - values selected by the filter): %s", c.Delete, d)
 		return o
 	}
